@@ -69,8 +69,8 @@ class AView:
 class AChunk:
     """bytes returned by file.read(): a range of the file."""
 
-    def __init__(self, e, off, k):
-        self.e, self.off, self.k = e, off, k
+    def __init__(self, e, off, k, fid=None):
+        self.e, self.off, self.k, self.fid = e, off, k, fid
 
     def __bool__(self):
         return bool(self.k > 0)
@@ -89,72 +89,117 @@ class AChunk:
 
 
 def harness(e, cfg):
+    """cfg['mode']:
+       single    - one call on a file of symbolic size
+       interfere - a second call on ANOTHER file runs (in a second thread of the real program: here inline, which is the
+                   schedule 'A is pre-empted, B runs to completion, A resumes') at a symbolic point between two of A's
+                   file/hash operations; both results are checked
+       rewrite   - the file is hashed, replaced by other content (any size, ANY stat result: the OS contract does not
+                   tie st_size/st_mtime to content), and hashed again; the second result must be of the second content
+    """
     common.import_sedpack()
     import sedpack.io.utils as U
     max_reads = cfg["max_reads"]
     algs = tuple(cfg["algs"])
-    S = e.fresh_int("S", 0, None)
-    state = dict(pos=0, reads=0, closed=False, opened=[])
+    mode = cfg.get("mode", "single")
     hs = []
+    opened = []
+    files = {}  # path -> current version record
+    interference = dict(budget=1 if mode == "interfere" else 0, running=False, result=None, done=False)
+
+    def new_version(path, tag):
+        S = e.fresh_int(f"S{tag}", 0, None)
+        files[path] = dict(fid=f"{path}#{tag}", S=S, tag=tag, stat={})
+        return files[path]
+
+    def maybe_interfere(where):
+        if interference["budget"] <= 0 or interference["running"]:
+            return
+        if not e.choice(f"B_runs_{where}", 2):
+            return
+        interference["budget"] -= 1
+        interference["running"] = True
+        try:
+            interference["result"] = U.hash_checksums(file_path="/vt/other", hashes=algs)
+            interference["done"] = True
+        finally:
+            interference["running"] = False
 
     class F:
+        def __init__(self, rec):
+            self.rec = rec
+            self.pos = 0
+            self.reads = 0
+            self.who = "B" if interference["running"] else "A"
+
         def __enter__(self):
             return self
 
         def __exit__(self, *a):
-            state["closed"] = True
             return False
 
         def close(self):
-            state["closed"] = True
+            pass
+
+        def fileno(self):
+            return 1000 + self.rec["tag"]
 
         def _next(self, cap):
-            if state["reads"] >= max_reads:
+            if self.reads >= max_reads:
                 raise Abort()  # unwinding bound: paths needing more reads are outside the claim (S bounded by it)
-            state["reads"] += 1
-            remaining = S - state["pos"]
+            self.reads += 1
+            remaining = self.rec["S"] - self.pos
             if remaining <= 0:
-                return state["pos"], 0
+                return self.pos, 0
             if not (cap > 0):
-                return state["pos"], 0  # zero-length buffer: the OS reads nothing
-            k = e.fresh_int(f"k{state['reads']}", 1, None)
+                return self.pos, 0  # zero-length buffer: the OS reads nothing
+            k = e.fresh_int(f"k{self.rec['tag']}_{self.reads}", 1, None)
             e.assume(k <= cap)
             e.assume(k <= remaining)
-            off = state["pos"]
-            state["pos"] = state["pos"] + k
+            off = self.pos
+            self.pos = self.pos + k
             return off, k
 
         def readinto(self, view):
             if not isinstance(view, AView):
                 raise Inconclusive("readinto() into an unknown buffer type")
+            if self.who == "A":
+                maybe_interfere(f"before_read{self.reads + 1}")
             off, k = self._next(view.length())
             if not (isinstance(k, int) and k == 0):
-                view.buf.content = (off - view.lo, k + view.lo)  # file offset of buffer index 0, filled up to index
+                # file offset of buffer index 0, filled up to index, whose bytes
+                view.buf.content = (off - view.lo, k + view.lo, self.rec["fid"])
+            if self.who == "A":
+                maybe_interfere(f"after_read{self.reads}")
             return k
 
         def read(self, size=-1):
             if isinstance(size, int) and size < 0:
                 raise Inconclusive("read() of the whole file at once is not modelled (unbounded)")
             off, k = self._next(size)
-            return AChunk(e, off, k)
+            return AChunk(e, off, k, self.rec["fid"])
 
     class H:
         def __init__(self, name):
             self.name = name
-            self.ranges = []  # (file offset, length, ok-condition)
+            self.ranges = []  # (file offset, length, ok-condition, file identity)
             self.finished = False
+            self.who = "B" if interference["running"] else "A"
+            self.epoch = len(opened)
 
         def update(self, chunk):
             if self.finished:
                 raise Inconclusive("update after hexdigest")
             if isinstance(chunk, AChunk):
-                self.ranges.append((chunk.off, chunk.k, True))
+                self.ranges.append((chunk.off, chunk.k, True, chunk.fid))
             elif isinstance(chunk, AView):
-                base, filled = chunk.buf.content if chunk.buf.content else (0, 0)
+                base, filled, fid = chunk.buf.content if chunk.buf.content else (0, 0, None)
                 # bytes [lo, hi) of the buffer correspond to file [base+lo, base+hi) iff hi <= filled index
-                self.ranges.append((base + chunk.lo, chunk.hi - chunk.lo, chunk.hi <= filled))
+                self.ranges.append((base + chunk.lo, chunk.hi - chunk.lo, chunk.hi <= filled, fid))
             else:
                 raise Inconclusive(f"hash update with {type(chunk).__name__}")
+            if self.who == "A":
+                maybe_interfere(f"after_update{len(self.ranges)}_{self.name}")
 
         def hexdigest(self):
             self.finished = True
@@ -164,10 +209,12 @@ def harness(e, cfg):
             raise Inconclusive("digest() instead of hexdigest()")
 
     def fake_open(path, mode="r", buffering=-1, **kw):
-        state["opened"].append((str(path), mode))
+        opened.append((str(path), mode))
         if "b" not in mode or "r" not in mode:
             raise Inconclusive(f"file opened with mode {mode}")
-        return F()
+        if str(path) not in files:
+            raise Inconclusive(f"opened a file it was not given: {path}")
+        return F(files[str(path)])
 
     def get_hash(name):
         h = H(name)
@@ -175,12 +222,37 @@ def harness(e, cfg):
         return h
 
     class FakeStat:
-        st_size = S
+        """st_size is the size of the current content; every other field is an arbitrary integer per file version."""
+
+        def __init__(self, rec):
+            self._rec = rec
+
+        def __getattr__(self, name):
+            if not name.startswith("st_"):
+                raise AttributeError(name)
+            if name == "st_size":
+                return self._rec["S"]
+            if name not in self._rec["stat"]:
+                self._rec["stat"][name] = e.fresh_int(f"{name}_{self._rec['tag']}", 0, None)
+            return self._rec["stat"][name]
+
+    def rec_of(p):
+        if isinstance(p, int):
+            for r in files.values():
+                if 1000 + r["tag"] == p:
+                    return r
+        if str(p) in files:
+            return files[str(p)]
+        raise Inconclusive(f"stat of something that is not the file: {p}")
 
     class FakeOsPath:
         @staticmethod
         def getsize(p):
-            return S
+            return rec_of(p)["S"]
+
+        @staticmethod
+        def getmtime(p):
+            return FakeStat(rec_of(p)).st_mtime_ns
 
         def __getattr__(self, name):
             raise Inconclusive(f"os.path.{name} in hash_checksums")
@@ -190,24 +262,49 @@ def harness(e, cfg):
 
         @staticmethod
         def stat(p, *a, **k):
-            return FakeStat()
+            return FakeStat(rec_of(p))
 
         @staticmethod
         def fstat(fd):
-            return FakeStat()
+            return FakeStat(rec_of(fd))
+
+        @staticmethod
+        def fspath(p):
+            return str(p)
 
         def __getattr__(self, name):
             raise Inconclusive(f"os.{name} in hash_checksums")
 
     saved = {k: U.__dict__.get(k, None) for k in ("open", "memoryview", "bytearray", "_get_hash_function", "os")}
+    swapped = {}
+    for k, v in list(U.__dict__.items()):
+        # buffers that live at module level are shared by every call (and thread): model them as ONE abstract buffer
+        if isinstance(v, (memoryview, bytearray)):
+            swapped[k] = v
+            U.__dict__[k] = AView(ABuf(len(v)))
+        cc = getattr(v, "cache_clear", None)
+        if callable(cc) and getattr(v, "__module__", None) == U.__name__:
+            cc()  # a memo table must not survive from one explored path to the next; within a path it is part of the code
     if "os" in U.__dict__:
-        U.os = FakeOs()  # the file's size, if asked for, is the symbolic S
+        U.os = FakeOs()  # the file's size / stat, if asked for, are symbolic
     U.open = fake_open
     U.memoryview = lambda b: AView(b) if isinstance(b, ABuf) else (_ for _ in ()).throw(Inconclusive("memoryview of ?"))
     U.bytearray = ABuf
     U._get_hash_function = get_hash
+    calls = []  # (result, file record at the time, label)
     try:
+        new_version("/vt/file", 1)
+        if mode == "interfere":
+            new_version("/vt/other", 9)
         out = U.hash_checksums(file_path="/vt/file", hashes=algs)
+        calls.append((out, files["/vt/file"], "the call", 0))
+        if mode == "interfere" and interference["done"]:
+            calls.append((interference["result"], files["/vt/other"], "the concurrent call on another file", None))
+        if mode == "rewrite":
+            n_open = len(opened)
+            rec2 = new_version("/vt/file", 2)
+            out2 = U.hash_checksums(file_path="/vt/file", hashes=algs)
+            calls.append((out2, rec2, "the call after the file was replaced", n_open))
     except OSError as exc:
         raise Inconclusive(f"hash_checksums touched the file system in a way the file stub does not model: {exc}") from exc
     finally:
@@ -216,26 +313,40 @@ def harness(e, cfg):
                 U.__dict__.pop(k, None)
             else:
                 setattr(U, k, v)
-    if not state["closed"] and state["opened"]:
-        pass  # leaking the handle is not part of this property
+        for k, v in swapped.items():
+            U.__dict__[k] = v
+        for k, v in list(U.__dict__.items()):
+            cc = getattr(v, "cache_clear", None)
+            if callable(cc) and getattr(v, "__module__", None) == U.__name__:
+                cc()
     # ---- obligations
-    e.prove(state["opened"] == [("/vt/file", state["opened"][0][1])] if state["opened"] else False,
-            f"hash_checksums opened {state['opened']} instead of exactly the file it was given", dict(kind="wrong-file"))
-    e.prove(isinstance(out, tuple) and len(out) == len(algs), f"{len(out)} digests for {len(algs)} algorithms", dict(kind="result-arity"))
-    for idx, name in enumerate(algs):
-        r = out[idx]
-        ok = isinstance(r, tuple) and r[0] == "hex" and r[1].name == name
-        e.prove(ok, f"result #{idx} is not the hex digest of algorithm {name} (order/identity of `hashes` not kept)",
-                dict(kind="result-order"))
-        h = r[1]
-        off = 0
-        for (start, ln, valid) in h.ranges:
-            e.prove(valid, f"{name}: fed buffer bytes beyond what the last read filled", dict(kind="fed-beyond-read"))
-            e.prove(start == off, f"{name}: fed a range starting at {start} but {off} bytes were fed so far (gap/overlap)",
-                    dict(kind="not-contiguous"))
-            off = off + ln
-        e.prove(off == S, f"{name}: fed {off} bytes of a file of S bytes (not the complete content)", dict(kind="not-whole-file"))
-    return dict(algs=list(algs), reads=state["reads"])
+    e.prove(all(o[0] in ("/vt/file", "/vt/other") for o in opened) and bool(opened),
+            f"hash_checksums opened {opened} instead of exactly the file it was given", dict(kind="wrong-file"))
+    for out, rec, label, epoch in calls:
+        S, fid = rec["S"], rec["fid"]
+        e.prove(isinstance(out, tuple) and len(out) == len(algs), f"{label}: {len(out)} digests for {len(algs)} algorithms",
+                dict(kind="result-arity", mode=mode))
+        for idx, name in enumerate(algs):
+            r = out[idx]
+            ok = isinstance(r, tuple) and r[0] == "hex" and r[1].name == name
+            e.prove(ok, f"{label}: result #{idx} is not the hex digest of algorithm {name} (order/identity of `hashes` not kept)",
+                    dict(kind="result-order", mode=mode))
+            h = r[1]
+            if epoch is not None and epoch > 0:
+                e.prove(h.epoch >= epoch, f"{label}: {name} digest returned is one computed BEFORE the file was replaced "
+                        "(a result remembered by path/size/mtime is not the digest of the current bytes)",
+                        dict(kind="stale-digest", mode=mode))
+            off = 0
+            for (start, ln, valid, rfid) in h.ranges:
+                e.prove(rfid == fid, f"{label}: {name} was fed bytes of {rfid} while hashing {fid} (a buffer or hash object "
+                        "shared between calls)", dict(kind="fed-other-file", mode=mode))
+                e.prove(valid, f"{label}: {name}: fed buffer bytes beyond what the last read filled", dict(kind="fed-beyond-read", mode=mode))
+                e.prove(start == off, f"{label}: {name}: fed a range starting at {start} but {off} bytes were fed so far (gap/overlap)",
+                        dict(kind="not-contiguous", mode=mode))
+                off = off + ln
+            e.prove(off == S, f"{label}: {name}: fed {off} bytes of a file of S bytes (not the complete content)",
+                    dict(kind="not-whole-file", mode=mode))
+    return dict(algs=list(algs), mode=mode, opened=len(opened))
 
 
 def _cell(cell):
@@ -313,7 +424,12 @@ def run(tier, seed):
     else:
         tuples += list(itertools.product(ALGS, repeat=2)) + [("xxh64", "sha3_256", "sha1"), ("sha256", "sha256", "md5"),
                                                              ("xxh128", "xxh32", "xxh128")]
-    cs = [dict(algs=list(t), max_reads=max_reads) for t in tuples]
+    cs = [dict(algs=list(t), max_reads=max_reads, mode="single") for t in tuples]
+    # a second call on another file at any point between two operations of the first; the file replaced between two calls
+    multi = [("sha256",), ("xxh64", "md5")] if tier == "quick" else [("sha256",), ("xxh64", "md5"), ("md5", "md5"), ("xxh128", "sha1", "sha3_256")]
+    for t in multi:
+        cs.append(dict(algs=list(t), max_reads=3 if tier == "quick" else 4, mode="interfere"))
+        cs.append(dict(algs=list(t), max_reads=3 if tier == "quick" else 4, mode="rewrite"))
     st, per_cell, errors = par.run_cells(_cell, cs)
     viols, seen = [], set()
     for c in st.cex:
@@ -322,7 +438,8 @@ def run(tier, seed):
         if sig in seen:
             continue
         seen.add(sig)
-        viols.append(Violation(sig, f"{c['msg']} (model {c['model']})", dict(kind="symbolic", model=c["model"])))
+        viols.append(Violation(sig, f"{c['msg']} (model {c['model']})",
+                               dict(kind="symbolic", model=c["model"], mode=(c.get("info") or {}).get("mode", "single"))))
     bad = anchor_hash_functions()
     if bad:
         viols.append(Violation("C16:wrong-algorithm-for-name", f"_get_hash_function gives a different digest than the standard "
@@ -366,7 +483,83 @@ def replay(case):
     if case.get("kind") == "anchor-stored":
         p = anchor_stored_tuple(tuple(case["algs"]))
         return bool(p), str(p)
-    S = int(case["model"].get("S", 0))
+    def ref_digests(data, algs):
+        return tuple(({"xxh32": xxhash.xxh32_hexdigest, "xxh64": xxhash.xxh64_hexdigest, "xxh128": xxhash.xxh128_hexdigest}[a](data)
+                      if a.startswith("xxh") else getattr(hashlib, a)(data).hexdigest()) for a in algs)
+
+    if case.get("mode") == "rewrite":
+        # the file is hashed, replaced (sizes from the model; the stat fields the model made equal are made equal where
+        # the OS lets a process do that: size by content, mtime by utime), and hashed again
+        m = case["model"]
+        s1, s2 = int(m.get("S1", 0)), int(m.get("S2", 0))
+        algs = ("sha256", "md5", "xxh64")
+        with common.scratch_dir("vt16r_") as tmp:
+            f = tmp / "f"
+            for (a, b) in [(s1, s2), (max(s1, 1), max(s1, 1)), (4096, 4096)]:
+                d1, d2 = os.urandom(a), os.urandom(b)
+                f.write_bytes(d1)
+                st = os.stat(f)
+                got1 = U.hash_checksums(f, algs)
+                f.write_bytes(d2)
+                os.utime(f, ns=(st.st_atime_ns, st.st_mtime_ns))
+                got2 = U.hash_checksums(f, algs)
+                if tuple(got1) != ref_digests(d1, algs):
+                    return True, f"first digest wrong for size {a}"
+                if tuple(got2) != ref_digests(d2, algs):
+                    return True, (f"after replacing the {a}-byte file by {b} other bytes (same mtime), hash_checksums returned "
+                                  f"{'the digests of the OLD content' if tuple(got2) == tuple(got1) else 'wrong digests'}")
+        return False, "digests follow the content"
+    if case.get("mode") == "interfere":
+        # the schedule of the counter-example on two real threads: thread A is stopped right after one of its reads,
+        # thread B hashes another file completely, A resumes
+        import threading
+        algs = ("sha256", "md5", "xxh64")
+        with common.scratch_dir("vt16r_") as tmp:
+            da, db = os.urandom(300_000), os.urandom(200_000)
+            (tmp / "a").write_bytes(da)
+            (tmp / "b").write_bytes(db)
+            real_open = open
+            res = {}
+            main_thread = threading.get_ident()
+            for stop_at in (1, 2, 3):
+                class Gate:
+                    def __init__(self, f):
+                        self.f, self.i = f, 0
+
+                    def __enter__(self):
+                        return self
+
+                    def __exit__(self, *a):
+                        self.f.close()
+
+                    def readinto(self, mv):
+                        n = self.f.readinto(mv)
+                        self.i += 1
+                        if threading.get_ident() == main_thread and self.i == stop_at:
+                            t = threading.Thread(target=lambda: res.__setitem__("b", U.hash_checksums(tmp / "b", algs)))
+                            t.start()
+                            t.join()
+                        return n
+
+                    def read(self, n=-1):
+                        out = self.f.read(n)
+                        self.i += 1
+                        if threading.get_ident() == main_thread and self.i == stop_at:
+                            t = threading.Thread(target=lambda: res.__setitem__("b", U.hash_checksums(tmp / "b", algs)))
+                            t.start()
+                            t.join()
+                        return out
+                U.open = lambda p, mode="rb", buffering=-1: Gate(real_open(p, mode, buffering=buffering))
+                try:
+                    ga = U.hash_checksums(tmp / "a", algs)
+                finally:
+                    del U.open
+                if tuple(ga) != ref_digests(da, algs) or tuple(res.get("b", ())) != ref_digests(db, algs):
+                    return True, (f"two threads hashing different files: thread A stopped after its read #{stop_at} while thread B "
+                                  f"hashed its file; A correct: {tuple(ga) == ref_digests(da, algs)}, B correct: "
+                                  f"{tuple(res.get('b', ())) == ref_digests(db, algs)}")
+        return False, "concurrent calls on different files gave the standard digests"
+    S = int(case["model"].get("S1", case["model"].get("S", 0)))
     sizes = sorted({S, 0, 1, 131071, 131072, 131073, 262144, 262145, 393217})
     problems = []
     with common.scratch_dir("vt16r_") as tmp:
@@ -383,7 +576,7 @@ def replay(case):
     # short reads cannot be forced on a regular file; a counter-example that needs them is replayed with a
     # raw file object wrapper that honours the model's read sizes
     if not problems:
-        ks = [v for k, v in sorted(case["model"].items()) if k.startswith("k") and k[1:].isdigit()]
+        ks = [v for k, v in sorted(case["model"].items()) if k.startswith("k1_") and k[3:].isdigit()]
         data = os.urandom(S)
         with common.scratch_dir("vt16r_") as tmp:
             (tmp / "f").write_bytes(data)
